@@ -209,8 +209,14 @@ class ScaleEval:
                     red = l.args[0] if l.args else (l.func.value if isinstance(l.func, ast.Attribute) else None)
             cnt = None
             if isinstance(r, ast.Subscript) and isinstance(r.value, ast.Attribute) and r.value.attr == 'shape' \
-                    and isinstance(r.slice, ast.Constant) and r.slice.value == 0:
-                cnt = r.value.value
+                    and isinstance(r.slice, ast.Constant) and isinstance(r.slice.value, int):
+                if r.slice.value == 0:
+                    cnt = r.value.value
+                elif red is not None and self._stack_name(red) and self._stack_name(red) == self._stack_name(r.value.value):
+                    # sum over axis 0 of a stack divided by the extent of another axis of the same stack
+                    ef = self.elem_factor(self._stack_name(red), depth)
+                    if ef is not None:
+                        return _mul(_mul(ef, {'stack0': 1}), {'stack%d' % r.slice.value: -1})
             elif isinstance(r, ast.Call) and isinstance(r.func, ast.Name) and r.func.id == 'len' and r.args:
                 cnt = r.args[0]
             if red is not None and cnt is not None:
